@@ -51,9 +51,10 @@ D3DivRHE(a, n) == IF n > 0 THEN D3DivRHEpos(a, n) ELSE D3DivRHEpos(D3Neg(a), -n)
 D3MulRatio(a, num, den) == D3DivRHE(D3MulInt(a, num), den)
 D3DivRatio(a, num, den) == D3DivRHE(D3MulInt(a, den), num)
 \* duration (/) duration: exact integers, when both fit (microseconds below 2000 s, or whole seconds)
-FitsUs(t) == LET A == D3Abs(t) IN A[1] = 0 /\ A[2] < 2000
+\* bounds chosen so that b * floor(a / b) (|.| <= |a| + |b|) stays below 2^31
+FitsUs(t) == LET A == D3Abs(t) IN A[1] = 0 /\ A[2] < 1000
 UsOf(t) == IF t[1] < 0 THEN -((D3Abs(t)[2]) * 1000000 + D3Abs(t)[3]) ELSE t[2] * 1000000 + t[3]
-WholeSec(t) == t[3] = 0 /\ D3Abs(t)[1] < 24000
+WholeSec(t) == t[3] = 0 /\ D3Abs(t)[1] < 12000
 SecOf(t) == t[1] * 86400 + t[2]
 IFloorDiv(a, b) == IF b > 0 THEN a \div b ELSE (-a) \div (-b)
 IMod(a, b) == a - b * IFloorDiv(a, b)
